@@ -109,11 +109,25 @@ def run(repo):
           [('model already formulated (var_ev_list is not None)', none_guard('var_ev_list'))])
     # scenario re-declaration: inside the loop over events: remove-or-raise
     ev = repo.func('lp.DecVar.evtadapt')
-    ok = False
-    for n in walk_no_nested(ev.node):
-        if isinstance(n, ast.If) and 'in self.event_adapt[0]' in ntext(n.test):
-            body = ' '.join(ntext(s) for s in n.body)
-            ok = 'self.event_adapt[0].remove(' in body and any(isinstance(s, ast.Raise) for s in n.orelse)
+    # every pass through the loop over the declared scenarios either removes the scenario from the
+    # default event -- after a membership test has succeeded -- or raises
+    class _Rem(MustFlow):
+        def transfer(self, node, state):
+            if any(isinstance(x, ast.Call) and ntext(x.func) == 'self.event_adapt[0].remove' for x in ast.walk(node)):
+                tested = any(isinstance(f, tuple) and f[0] == 'cond' and 'self.event_adapt[0]' in f[2] and
+                             ((f[1] is True and ' in ' in f[2] and ' not in ' not in f[2]) or
+                              (f[1] is False and ' not in ' in f[2])) for f in state)
+                if tested:
+                    return state | {'removed'}
+            return state
+    loops = [n for n in walk_no_nested(ev.node) if isinstance(n, ast.For) and
+             any('self.event_adapt[0]' in ntext(s) for s in n.body)]
+    ok = bool(loops)
+    for lp_ in loops:
+        o = _Rem().run(lp_.body)
+        exits = [o.normal] + [st_ for st_, _n in o.continues]
+        if any(e is not None and 'removed' not in e for e in exits) or o.breaks or o.returns:
+            ok = False
     res.inst({'function': ev.fq, 'guard': 'scenario re-declared or unknown -> KeyError', 'ok': ok}, ok)
     if not ok:
         res.fail(Finding(RULE, ev.fq, 'guard: scenario re-declaration',
